@@ -30,6 +30,8 @@ SOURCES = [
     # faults inside block tags that are handled inside the template: nothing of the failed block may stay behind
     '<dtml-try><dtml-let p="1" q=nope2>never</dtml-let><dtml-except>L</dtml-try><dtml-try><dtml-with o><dtml-in seq><dtml-var nope3></dtml-in>'
     '</dtml-with><dtml-except>W</dtml-try><dtml-try><dtml-in seq sort_expr="nope4">x</dtml-in><dtml-except>S</dtml-try>',
+    # (tags with options of every kind: what a tag prepares for its options at compile time serves every later rendering)
+    '<dtml-var a upper spacify>|<dtml-var a url_quote newline_to_br size=20 etc="~">|&dtml.url_quote_plus.lower-a;|<dtml-var a fmt="[%s]" null="-">|'
     '<dtml-if _u>u<dtml-else>no-u</dtml-if><dtml-in m mapping sort=k reverse><dtml-var k></dtml-in><dtml-with o><dtml-var y></dtml-with>&dtml-a;'
     '<dtml-in m mapping reverse_expr="rv"><dtml-var k missing=-></dtml-in>'
     # what a sort specification resolves in the namespace of the render (a comparison function by name, the value of
